@@ -13,3 +13,50 @@ PROP = {
         "after-Close behaviour of the whole connection (Open/Close/reconnect histories on both transports) is observed by the e2e pass, not proved: the theorem covers the supervisor, whose close latch now fences the commits",
     ],
 }
+
+
+# ---------------------------------------------------------------------------------------------
+# end-to-end (connection-level) pass: real hsmsss / secs1 connections over net.Pipe under random
+# Open/Close/peer histories; a Go-side monitor checks the recorded log (harness/cmd/c05e2e).
+
+E2E_N = {"quick": 616, "thorough": 12000}
+
+
+def custom(run, tier):
+    import os
+    import sys
+    sys.path.insert(0, os.path.join(os.path.dirname(os.path.dirname(os.path.abspath(__file__))), "lib"))
+    import vlib
+    with vlib.Lock():
+        ok, log = vlib.build_harness("c05e2e")
+    run.oblige("e2e harness (c05e2e) builds against current /repo", ok, log)
+    if not ok:
+        return
+    n = E2E_N["thorough" if tier == "thorough" else "quick"]
+    if run.broken:
+        n *= 5  # a broken obligation widens the search for a failing input
+    cases = os.path.join(vlib.BUILD, "c05e2e.cases")
+    rc, summary, out = vlib.run_harness("c05e2e", ["-seed", run.seed, "-n", n, "-tier", tier, "-out", cases], timeout=2400)
+    if rc != 0 or summary is None:
+        run.oblige("e2e harness run completes", False, out[-3000:])
+        return
+    run.absorb(summary)
+    hist = summary.get("histogram") or {}
+    total = summary.get("evaluations", 0)
+    anomalies = hist.get("rig-anomaly", 0)
+    # a scenario the rig could not drive as planned gives no verdict for the affected step; a run
+    # where that is common has not checked what it claims to
+    run.oblige("e2e: rig anomalies in at most 5%% of the scenarios (%d of %d)" % (anomalies, total),
+               total > 0 and anomalies * 20 <= total, "\n".join(summary.get("notes") or []))
+    # the schedule of the repaired Close-vs-reconnect defect must have been exercised
+    late = hist.get("blockdial:late-live-conn-returned-during-close", 0)
+    run.oblige("e2e: blocked dialer returned a live conn during Close in %d runs (at least 100 of >= 300 blockdial runs)" % late,
+               hist.get("class:blockdial", 0) >= 300 and late >= 100, str(hist))
+    run.oblige("e2e: both T7 outcomes seen (selected before expiry %d, expired first %d)" % (hist.get("t7:selected", 0), hist.get("t7:expired", 0)),
+               hist.get("t7:selected", 0) > 0 and hist.get("t7:expired", 0) > 0, str(hist))
+    run.oblige("e2e: the coalesce warning was produced under a stalled handler (%d runs)" % hist.get("coal:warning-logged", 0),
+               hist.get("coal:warning-logged", 0) > 0, str(hist))
+    run.oblige("e2e: no goroutine of the rig or of the library outlives the last Close", hist.get("goroutines-left", 0) == 0,
+               "\n".join(summary.get("notes") or []))
+    run.coverage["e2e_scenarios"] = total
+    run.coverage["e2e_classes"] = {k[6:]: v for k, v in hist.items() if k.startswith("class:")}
